@@ -117,7 +117,8 @@ type piece struct {
 
 type renderer struct {
 	r     *h.Rng
-	extra int // percent chance of a redundant parenthesis around any operand
+	extra int  // percent chance of a redundant parenthesis around any operand
+	tight bool // no white space wherever two adjacent tokens stay separate under maximal munch
 	out   []piece
 }
 
@@ -219,6 +220,10 @@ func (w *renderer) text(trivia bool) string {
 	for i, p := range w.out {
 		if i > 0 {
 			switch {
+			case w.tight:
+				if tightNeedsSpace(w.out[i-1].text, p.text) {
+					sb.WriteString(" ")
+				}
 			case !trivia:
 				sb.WriteString(" ")
 			case p.noNLBefore:
@@ -240,6 +245,54 @@ func (w *renderer) text(trivia bool) string {
 		sb.WriteString(p.text)
 	}
 	return sb.String()
+}
+
+// munch tokenises a text of punctuator characters by ES5 7.7 (longest punctuator first); nil if a comment would start.
+func munch(s string) []string {
+	var out []string
+	for len(s) > 0 {
+		if strings.HasPrefix(s, "//") || strings.HasPrefix(s, "/*") {
+			return nil
+		}
+		best := ""
+		for _, p := range es5Punctuators {
+			if strings.HasPrefix(s, p) && len(p) > len(best) {
+				best = p
+			}
+		}
+		if best == "" {
+			return nil
+		}
+		out = append(out, best)
+		s = s[len(best):]
+	}
+	return out
+}
+
+// tightNeedsSpace: must white space separate the two tokens so that they remain these two tokens (maximal munch)?
+func tightNeedsSpace(a, b string) bool {
+	isWord := func(c byte) bool {
+		return c == '_' || c == '$' || c == '\\' || ('0' <= c && c <= '9') || ('a' <= c && c <= 'z') || ('A' <= c && c <= 'Z') || c >= 0x80
+	}
+	isPunct := func(t string) bool { return strings.Trim(t, "+-*/%^<>=!&|~?:.,;()[]{}") == "" }
+	isNum := func(t string) bool {
+		return '0' <= t[0] && t[0] <= '9' || t[0] == '.' && len(t) > 1 && '0' <= t[1] && t[1] <= '9'
+	}
+	la, fb := a[len(a)-1], b[0]
+	switch {
+	case isWord(la) && isWord(fb):
+		return true
+	case isNum(a) && (fb == '.' || isWord(fb)):
+		return true // `5 .x`, `5. x`, `0x1f in`
+	case a == "." && '0' <= fb && fb <= '9':
+		return true
+	case isPunct(a) && isPunct(b):
+		m := munch(a + b)
+		return !(len(m) == 2 && m[0] == a && m[1] == b)
+	case isPunct(a) && fb == '.' && len(b) > 1: // `.5` after a punctuator such as `.`
+		return la == '.'
+	}
+	return false
 }
 
 // glue reports whether two adjacent token texts would lex differently without a separator.
